@@ -544,16 +544,35 @@ def c08(sc, ctx, ex, ob, V, P):
             if any(ob.by_id[a].preds or ob.by_id[a].succs for a in [tid] + ob.ancestors(tid)):
                 continue
             free.append(tid)
-        pos = {t: k for k, t in enumerate(free)}
-        seq = [r[2] for r in ob.rows if r[2] in pos]
-        firsts = []
-        for t in seq:
-            if t not in firsts:
-                firsts.append(t)
-        if len(firsts) >= 2:
+        # "handed out in WBS order" is read off dates and days, never off the order of the report rows (no property promises one):
+        # an independent leaf i that stands before j in the WBS and shares its resource is served first, i.e. j holds no reservation
+        # on a day, from i's release day on, after which i still has work to do; and when both begin on the same day, i begins first
+        info = {}
+        for t in free:
+            o = ob.by_id[t]
+            res = ob.res_by_name(o.resource)
+            if len(res) != 1 or o.start is None or ctx.milestone(t):
+                continue
+            days = sorted({r[1] for r in ob.rows if r[2] == t and r[0] is res[0] and r[3] > 0})
+            rel = day(o.start) if ctx.fixed_start(t) else day(release_of(sc, ctx, ex, ob, t))
+            info[t] = (res[0], days, rel, o)
+        served = [t for t in free if t in info and info[t][1]]
+        if len(served) >= 2:
             P('two-independent-leaves')
-        if firsts != sorted(firsts, key=lambda t: pos[t]):
-            V('capacity-not-in-wbs-order', '-', f'independent leaves received capacity in order {firsts}, WBS order is {[t for t in free if t in firsts]}')
+        for a_ in range(len(served)):
+            for b_ in range(a_ + 1, len(served)):
+                ti, tj = served[a_], served[b_]
+                ri, di, reli, oi = info[ti]
+                rj, dj, relj, oj = info[tj]
+                if ri is not rj or ctx.fixed_end(ti) or ctx.fixed_end(tj):
+                    continue
+                bad = [d for d in dj if d >= reli and di[-1] > d]
+                if bad:
+                    V('capacity-not-in-wbs-order', '-', f'independent leaves {ti} and {tj} (WBS order) share a resource: {tj} holds capacity on '
+                      f'{bad[0]:%Y-%m-%d} although {ti}, released {reli:%Y-%m-%d}, still has work after that day')
+                elif clock_ok and di[0] == dj[0] and not ctx.fixed_start(ti) and not ctx.fixed_start(tj) and oi.start > oj.start + ctx.ttol:
+                    V('capacity-not-in-wbs-order', 'same-day', f'independent leaves {ti} and {tj} (WBS order) both begin on {di[0]:%Y-%m-%d}: '
+                      f'{ti} starts {oi.start}, after {tj} ({oj.start})')
 
 
 # ----------------------------------------------------------------------------------------------
